@@ -122,6 +122,7 @@ def _run_crosshair(target: str, timeout: float, path_timeout: float | None, plug
     verdict, msg, paths = "inconclusive", "", 0
     for m in _ITER.finditer(err):
         paths = max(paths, int(m.group(3)))
+    decisions = err.count("SMT chose")  # branch decisions settled by the solver along the explored paths (-v log)
     msgs = [m.groupdict() for m in _MSG.finditer(out)]
     errs = [m for m in msgs if m["level"] == "error"]
     infos = [m for m in msgs if m["level"] == "info"]
@@ -137,7 +138,7 @@ def _run_crosshair(target: str, timeout: float, path_timeout: float | None, plug
     else:
         tail = (out + "\n" + err)[-1500:]
         verdict, msg = "inconclusive", f"unparsed crosshair output rc={rc}: {tail}"
-    return dict(verdict=verdict, msg=msg, paths=paths, wall=wall, rc=rc)
+    return dict(verdict=verdict, msg=msg, paths=paths, wall=wall, rc=rc, decisions=decisions)
 
 
 def _replay_ch(pid: str, ob: Ob, msg: str):
@@ -189,6 +190,21 @@ sys.exit(1)
     return p.returncode == 1, path, (p.stdout + p.stderr)[-600:]
 
 
+def _validate_witness(ob: Ob, call: str):
+    """Run the obligation function concretely (no CrossHair) on the reachability witness: it must return "".
+    Returns (True/False/None, detail); None = could not be executed (not counted)."""
+    code = (f"import sys; sys.path[:0]=[{VERIF!r}]\nfrom {ob.module} import *\nimport {ob.module} as _m\n"
+            f"r = _m.{call}\nprint('@@W@@' + repr(r))\n")
+    try:
+        p = subprocess.run([PY, "-c", code], capture_output=True, text=True, timeout=120, env=_env(), cwd=VERIF)
+    except subprocess.TimeoutExpired:
+        return None, "timeout"
+    m = re.search(r"@@W@@(.*)$", p.stdout, re.M)
+    if not m:
+        return None, (p.stderr or p.stdout)[-300:]
+    return (m.group(1) == "''"), m.group(1)[:300]
+
+
 def _run_ch(pid: str, ob: Ob):
     pt = ob.path_timeout or max(30.0, ob.timeout ** 0.5)
     res = _run_crosshair(f"{ob.module}.{ob.func}", ob.timeout, pt, ob.plugin)
@@ -200,15 +216,17 @@ def _run_ch(pid: str, ob: Ob):
         res2 = _run_crosshair(f"{ob.module}.{ob.func}", ob.timeout * 2, pt * 2, ob.plugin)
         res2["paths"] = max(res2["paths"], 0)
         res2["wall"] += res["wall"]
+        res2["decisions"] += res["decisions"]
         res = res2
     r = dict(name=ob.name, kind="ch", engine=ob.engine, verdict=res["verdict"], detail=res["msg"], paths=res["paths"],
              wall_s=round(res["wall"], 2), bounds=ob.bounds, functions=list(ob.functions), queries=0,
-             solver_s=None, exhaustive=ob.exhaustive, known=ob.known, attempts=attempts)
+             solver_s=None, exhaustive=ob.exhaustive, known=ob.known, attempts=attempts, decisions=res["decisions"], validated=0)
     if res["verdict"] == "counterexample":
         ok, path, detail = _replay_ch(pid, ob, res["msg"])
         r["replay"] = path
         r["reproduced"] = ok
         r["replay_detail"] = detail
+        r["validated"] += 1 if ok else 0
         r["verdict"] = "violated" if ok else "inconclusive"
         if not ok:
             r["detail"] = "counterexample did not reproduce concretely (encoding/model issue): " + res["msg"]
@@ -223,6 +241,14 @@ def _run_ch(pid: str, ob: Ob):
         if tw["verdict"] == "counterexample":
             m = _CALL.search(tw["msg"])
             r["witness"] = (m.group("call").strip() if m else tw["msg"])[:400]
+            if m and r["verdict"] == "holds":
+                # the witness input is executed once more through the harness on the real code in the plain interpreter
+                good, detail = _validate_witness(ob, m.group("call").strip())
+                if good:
+                    r["validated"] += 1
+                elif good is False:
+                    r["verdict"] = "inconclusive"
+                    r["detail"] = "concrete execution of the reachability witness disagrees with the symbolic run: " + detail
         else:
             r["witness"] = None
             if r["verdict"] == "holds":
@@ -247,7 +273,7 @@ def _run_smt(pid: str, ob: Ob):
     wall = time.time() - t0
     r = dict(name=ob.name, kind="smt", engine=ob.engine, verdict="inconclusive", detail="", paths=0, wall_s=round(wall, 2),
              bounds=ob.bounds, functions=list(ob.functions), queries=0, solver_s=0.0, exhaustive=False,
-             known=ob.known, witness=None)
+             known=ob.known, witness=None, decisions=0, validated=0)
     m = re.search(r"@@RESULT@@(.*)$", out, re.M)
     if not m:
         r["detail"] = "smt obligation produced no result: " + (err or out)[-800:]
@@ -286,6 +312,7 @@ def _run_smt(pid: str, ob: Ob):
             except subprocess.TimeoutExpired:
                 ok = False
             r["reproduced"] = ok
+            r["validated"] = 1 if ok else 0
             r["verdict"] = "violated" if ok else "inconclusive"
             if not ok:
                 r["detail"] = "model did not reproduce through the replay script: " + str(res.get("counterexample"))
@@ -385,6 +412,8 @@ def _write_evidence(pid, tier, seed, results, wall, level_text, assumptions, rul
     paths = sum(r["paths"] for r in results)
     queries = sum(r["queries"] for r in results)
     nontrivial = sum(1 for r in results if r.get("witness"))
+    decisions = sum(r.get("decisions", 0) for r in results)
+    validated = sum(r.get("validated", 0) for r in results)
     samples = []
     for r in results[:]:
         if r.get("witness") and len(samples) < 6:
@@ -398,6 +427,13 @@ def _write_evidence(pid, tier, seed, results, wall, level_text, assumptions, rul
                          "(same harness, postcondition False / encoding without the negated property) produced a model, "
                          "i.e. the assertion is reachable and the precondition satisfiable"),
         "samples": samples or [{"note": "no obligation ran"}],
+        # model_checking keys: states = symbolic states decided (one per explored path condition of the real code + one per
+        # direct SMT query); transitions = branch decisions the solver settled on those paths (CrossHair -v log) + SMT
+        # queries; traces_validated_against_impl = concrete executions on the real code in the plain interpreter
+        # (reachability witnesses returning "", counterexamples reproduced)
+        "states": paths + queries,
+        "transitions": decisions + queries,
+        "traces_validated_against_impl": validated,
         "obligations": len(results),
         "discharged": sum(1 for r in results if r["verdict"] == "holds"),
         "crosshair_paths": paths,
